@@ -144,6 +144,7 @@ type PathResult struct {
 	LoopHits    map[string]int
 	VarOrder    []string
 	Bounds      map[string]int64
+	Sched       []int
 }
 
 // runPath executes harness fn once, following prefix.
@@ -177,6 +178,12 @@ func (w *Worker) runPath(harness *ssa.Function, prefix []Decision) (res PathResu
 			}
 		}
 		res.Bounds = path.bounds
+		res.Sched = e.sched.points
+		for i := range path.violations {
+			if path.violations[i].Sched == nil {
+				path.violations[i].Sched = e.sched.points
+			}
+		}
 		res.Violations = path.violations
 		res.Inconcl = path.inconcl
 		res.Obligations = path.obligations
@@ -261,7 +268,7 @@ func (w *Worker) runPath(harness *ssa.Function, prefix []Decision) (res PathResu
 	}
 	if res.Outcome == "panic" || res.Outcome == "deadlock" {
 		path.addViolation(res.Outcome, res.Detail, "", res.Model)
-		path.violations[len(path.violations)-1].Sched = e.sched.trace
+		path.violations[len(path.violations)-1].Sched = e.sched.points
 	}
 	finish()
 	return
@@ -308,6 +315,7 @@ type Vector struct {
 	Observes []string          `json:"observes"`
 	Outcome  string            `json:"outcome"`
 	Detail   string            `json:"detail,omitempty"`
+	Sched    []int             `json:"sched,omitempty"`
 }
 
 func explore(pr *Program, cfg *Config, harness *ssa.Function) *HarnessResult {
@@ -407,7 +415,7 @@ func explore(pr *Program, cfg *Config, harness *ssa.Function) *HarnessResult {
 					hr.Samples = append(hr.Samples, PathSample{Trace: res.Trace, Outcome: res.Outcome, Model: res.Model})
 				}
 				if res.Model != nil && (res.Outcome == "ok" || res.Outcome == "panic") && len(hr.Vectors) < 4000 {
-					hr.Vectors = append(hr.Vectors, Vector{Harness: harness.Name(), Model: res.Model, Observes: res.Observes, Outcome: res.Outcome, Detail: res.Detail})
+					hr.Vectors = append(hr.Vectors, Vector{Harness: harness.Name(), Model: res.Model, Observes: res.Observes, Outcome: res.Outcome, Detail: res.Detail, Sched: res.Sched})
 				}
 				work = append(work, res.Alts...)
 				if cfg.MaxPaths > 0 && hr.Paths >= cfg.MaxPaths && (len(work) > 0 || active > 0) {
